@@ -10,8 +10,8 @@ package main
 import (
 	"fmt"
 	"go/token"
-	"os"
 	"go/types"
+	"os"
 	"sort"
 	"strings"
 
@@ -76,10 +76,10 @@ type acq struct {
 }
 
 type lsummary struct {
-	acquires map[lockKey]acq   // transitively may-acquire (inst relative to own params)
-	netHold  map[lockKey]byte  // held at (every) return though not at entry: acquire wrapper
-	netRel   map[lockKey]bool  // released though not acquired: release wrapper
-	tryKey   *lockKey          // function result == TryLock on this key
+	acquires map[lockKey]acq  // transitively may-acquire (inst relative to own params)
+	netHold  map[lockKey]byte // held at (every) return though not at entry: acquire wrapper
+	netRel   map[lockKey]bool // released though not acquired: release wrapper
+	tryKey   *lockKey         // function result == TryLock on this key
 	tryMode  byte
 	requires map[string]string // guard class -> first field needing it (LCK-5), unmet inside the function
 	// paramHeld[k]: lock classes held (must) whenever the function calls its k-th parameter (a callback)
@@ -1310,9 +1310,9 @@ func (lr *lckResult) checkGuarded(fn *ssa.Function, ins ssa.Instruction, s lstat
 // ---------- the rules ----------
 
 var lckSameClassOK = map[string]string{
-	"core.GraphShard.mu":           "LockTwoShards orders the two shards by index; Snapshot/LoadFromSnapshot lock all shards in ascending index order (both checked by LCK-3b)",
-	"hnsw.Index.shardsMu[*]":       "node shard locks are taken one at a time or in ascending node-id order by the insertion code (not decided here; see DESIGN.md LCK limits)",
-	"core.DB.indexLocks[*]":        "Snapshot takes every per-index lock while holding DB.mu, which serialises the multi-lock acquisition",
+	"core.GraphShard.mu":             "LockTwoShards orders the two shards by index; Snapshot/LoadFromSnapshot lock all shards in ascending index order (both checked by LCK-3b)",
+	"hnsw.Index.shardsMu[*]":         "node shard locks are taken one at a time or in ascending node-id order by the insertion code (not decided here; see DESIGN.md LCK limits)",
+	"core.DB.indexLocks[*]":          "Snapshot takes every per-index lock while holding DB.mu, which serialises the multi-lock acquisition",
 	"engine.Engine.metadataLocks[*]": "one shard lock per node id; never nested (checked: no edge from the class to itself with distinct sites)",
 }
 
@@ -1760,11 +1760,11 @@ func ruleLCK5f(w *World, r *Report, lr *lckResult, keep func(guardClass string) 
 }
 
 var lck5Exceptions = map[string]string{
-	"DB.Snapshot:core.DB.indexLocks[*]":          "Snapshot read-locks every per-index lock in a loop (while holding DB.mu) before it reads the per-index maps; a loop acquisition is not a must-hold for a path-insensitive join, and the zero-iteration path reads nothing",
-	"DB.Snapshot:core.GraphShard.mu":             "Snapshot read-locks all 128 graph shards in an ascending constant-bound loop before reading them",
-	"DB.LoadFromSnapshot:core.GraphShard.mu":     "LoadFromSnapshot write-locks all 128 graph shards in an ascending constant-bound loop (deferred unlocks) before replacing their contents",
-	"Index.LoadSnapshotData:hnsw.Index.metaMu":   "the index being loaded was created by hnsw.New in the same LoadFromSnapshot call and is not yet stored in DB.vectorIndexes: no other goroutine can reach it",
-	"Index.LoadSnapshotData:hnsw.Index.activeMu": "same reason: the index is not published yet, nothing can close it while it is being loaded",
+	"DB.Snapshot:core.DB.indexLocks[*]":           "Snapshot read-locks every per-index lock in a loop (while holding DB.mu) before it reads the per-index maps; a loop acquisition is not a must-hold for a path-insensitive join, and the zero-iteration path reads nothing",
+	"DB.Snapshot:core.GraphShard.mu":              "Snapshot read-locks all 128 graph shards in an ascending constant-bound loop before reading them",
+	"DB.LoadFromSnapshot:core.GraphShard.mu":      "LoadFromSnapshot write-locks all 128 graph shards in an ascending constant-bound loop (deferred unlocks) before replacing their contents",
+	"Index.LoadSnapshotData:hnsw.Index.metaMu":    "the index being loaded was created by hnsw.New in the same LoadFromSnapshot call and is not yet stored in DB.vectorIndexes: no other goroutine can reach it",
+	"Index.LoadSnapshotData:hnsw.Index.activeMu":  "same reason: the index is not published yet, nothing can close it while it is being loaded",
 	"Index.UpdateNodePointer:hnsw.Index.activeMu": "called only by the arena compactor's goroutine; Index.Close stops the compactor and waits for it (StopCompactor, WaitForStopped) before it closes the arena — the order is checked by ORD-8b",
 }
 
